@@ -1,6 +1,7 @@
 """This module implements the CachedClass base classes."""
 from __future__ import annotations
 
+import inspect
 import logging
 from collections.abc import Hashable
 from typing import Any
@@ -58,7 +59,20 @@ class CachedClass:
             obj.__cache_key__ = (cls, args, kwargs)  # type: ignore
             return obj
 
-        key = (cls, args, tuple(kwargs.items()))
+        # The same parameter set can be spelled in several ways (defaults
+        # left out, positional or keyword); normalize through the
+        # constructor's signature so that they share one instance.
+        try:
+            signature = cls.__dict__.get('_init_signature')
+            if signature is None:
+                signature = inspect.signature(cls.__init__)
+                cls._init_signature = signature  # type: ignore
+            bound = signature.bind(None, *args, **kwargs)
+            bound.apply_defaults()
+            key = (cls, tuple(bound.arguments.items())[1:])
+            hash(key)
+        except (TypeError, ValueError):
+            key = (cls, args, tuple(kwargs.items()))
 
         _instances = cls._instances  # type: ignore
 
